@@ -100,6 +100,15 @@ def run(ctx, model_ok):
     while len(base) < ctx.n(1200, 40000):
         t = gen_line(rng)
         base.append(mark_ints(t, rng))
+    # literals of every length from 30 to 100 characters (ungrouped form), with and without a fraction: a reader that treats a
+    # particular length differently is met whatever that length is (the grouped spelling of the same number is 4/3 as long)
+    first_long = len(base)
+    for n_ in range(30, 101):
+        ds = str(rng.randint(1, 9)) + "".join(rng.choice("0123456789") for _ in range(n_ - 1))
+        base.append(f"\x01{ds}\x02 / 1000")
+        base.append(f"{ds[:-2]},5 {rng.choice(['kg', 'km', 'usd', '* 2'])}")
+        if n_ % 4 == 0:
+            base.append(f"{ds[:-1]}% of 50")
     marked = base
     base = [render_ints(t, ".") for t in marked]
     ops = [{"op": "exec", "lang": "en", "text": t} for t in base]
@@ -137,7 +146,7 @@ def run(ctx, model_ok):
         vals += [rng.uniform(-1e6, 1e6) for _ in range(40)] + [rng.uniform(0, 1) * 10 ** rng.randint(-30, 30) for _ in range(40)]
         code_hypothesis(ctx, vals)
         co = wire.Corr(ctx, compare=("kind", "value"))
-        co.run([{"lang": "en", "text": t2, "cfg": [{"op": "cfg", "dec": dec, "thou": thou}]} for (bi, dec, thou, t2) in idx[:ctx.n(600, 6000)] if " deg" not in t2])
+        co.run([{"lang": "en", "text": t2, "cfg": [{"op": "cfg", "dec": dec, "thou": thou}]} for (bi, dec, thou, t2) in idx[:ctx.n(600, 6000)] + [x for x in idx[ctx.n(600, 6000):] if x[0] >= first_long] if " deg" not in t2])
         ctx.dist.update({"corr:" + k: v for k, v in co.stats.items()})
 
 
